@@ -93,6 +93,24 @@ DIRECTED = [
         _a("Step", task="sync_repo_C"),
         _a("Step", task="update_rrdp_if_needed"),
         _a("RestartNormal"), _a("ExpectRenewed"), _a("Settle")]},
+    # a CA with two resource classes whose manifests have different
+    # next-update times (the class under the second parent comes into being
+    # under a shorter lifetime): a maintenance run under a margin between the
+    # two lifetimes re-issues the sets of that class only -- and publishes
+    # them, whichever class the run looks at last; the same for a second CA
+    # (the order in which a run visits the classes is that of a hash map)
+    {"slots": [["C2", "C"], ["D2", "D"]], "actions": [
+        _a("AddCa", c="B", p="A", res=["p1", "p2", "a1"]), _a("Settle"),
+        _a("AddCa", c="C", p="B", res=["p1"]), _a("Settle"),
+        _a("AddCa", c="D", p="B", res=["p2"]), _a("Settle"),
+        _a("RoaAdd", c="C", r=["p1", "a1"]),
+        _a("RoaAdd", c="D", r=["p2", "a1"]), _a("Settle"),
+        _a("Restart", timing=kc.SHORT_TIMING),
+        _a("AddParent", c="C2", p="A", res=["p2"]),
+        _a("AddParent", c="D2", p="A", res=["p1"]), _a("Settle"),
+        _a("Mark"), _a("RestartMargin"), _a("RepublishByMargin", margin=M),
+        _a("Pump"), _a("RestartNormal"), _a("ExpectByMargin", margin=M),
+        _a("Settle")]},
 ]
 
 
